@@ -22,6 +22,7 @@ import (
 	"go/parser"
 	"go/token"
 	"os"
+	"strconv"
 	"strings"
 )
 
@@ -541,6 +542,95 @@ func isTypedStoreRecv(fl *ast.FieldList) bool {
 	return false
 }
 
+// fileFacts: what the translated methods do not cover — the constructor (a single `return &T{field: param, …}`: which
+// parameter initialises which field; fields not listed stay zero, so a new object starts with an empty cache), the
+// accessor KVStore() (a single `return t.kv`), and the list of all function declarations of the file (a new method shows up).
+func fileFacts(f *ast.File, ctorName string) (ctor []string, accessor string, decls []string, errs []string) {
+	for _, d := range f.Decls {
+		fd, ok := d.(*ast.FuncDecl)
+		if !ok {
+			continue
+		}
+		decls = append(decls, fd.Name.Name)
+		switch {
+		case fd.Recv == nil && fd.Name.Name == ctorName:
+			params := map[string]bool{}
+			for _, p := range fd.Type.Params.List {
+				for _, n := range p.Names {
+					params[n.Name] = true
+				}
+			}
+			bad := func() { errs = append(errs, ctorName+": body is not a single `return &T{field: parameter, …}`") }
+			if fd.Body == nil || len(fd.Body.List) != 1 {
+				bad()
+
+				continue
+			}
+			rs, ok := fd.Body.List[0].(*ast.ReturnStmt)
+			if !ok || len(rs.Results) != 1 {
+				bad()
+
+				continue
+			}
+			u, ok := rs.Results[0].(*ast.UnaryExpr)
+			if !ok || u.Op != token.AND {
+				bad()
+
+				continue
+			}
+			cl, ok := u.X.(*ast.CompositeLit)
+			if !ok {
+				bad()
+
+				continue
+			}
+			for _, e := range cl.Elts {
+				kv, ok := e.(*ast.KeyValueExpr)
+				if !ok {
+					bad()
+
+					break
+				}
+				k, ok1 := kv.Key.(*ast.Ident)
+				v, ok2 := kv.Value.(*ast.Ident)
+				if !ok1 || !ok2 || !params[v.Name] {
+					bad()
+
+					break
+				}
+				ctor = append(ctor, k.Name+"="+v.Name)
+			}
+		case fd.Recv != nil && fd.Name.Name == "KVStore":
+			if fd.Body != nil && len(fd.Body.List) == 1 {
+				if rs, ok := fd.Body.List[0].(*ast.ReturnStmt); ok && len(rs.Results) == 1 {
+					if s, ok := rs.Results[0].(*ast.SelectorExpr); ok {
+						if x, ok := s.X.(*ast.Ident); ok && len(fd.Recv.List) == 1 && len(fd.Recv.List[0].Names) == 1 && x.Name == fd.Recv.List[0].Names[0].Name {
+							accessor = s.Sel.Name
+
+							continue
+						}
+					}
+				}
+			}
+			errs = append(errs, "KVStore(): body is not a single `return t.<field>`")
+		}
+	}
+	if ctor == nil && len(errs) == 0 {
+		errs = append(errs, "constructor "+ctorName+" not found")
+	}
+
+	return ctor, accessor, decls, errs
+}
+
+func leanStrList(xs []string) string {
+	q := make([]string, len(xs))
+	for i, x := range xs {
+		q[i] = strconv.Quote(x)
+	}
+
+	return "[" + strings.Join(q, ", ") + "]"
+}
+
 func main() {
 	if len(os.Args) != 3 {
 		fmt.Fprintln(os.Stderr, "usage: xlate_ts typedstore.go OUT.lean")
@@ -581,13 +671,23 @@ func main() {
 		}
 		os.Exit(1)
 	}
+	ctor, accessor, decls, ferrs := fileFacts(f, "NewTypedStore")
+	if len(ferrs) > 0 {
+		for _, e := range ferrs {
+			fmt.Fprintln(os.Stderr, "xlate_ts:", e)
+		}
+		os.Exit(1)
+	}
 	var b strings.Builder
 	b.WriteString("import Hive.Model.TypedStoreCode\n/-! GENERATED by harness/c06/xlate_ts from kvstore/typedstore.go — bodies of the point methods of TypedStore as terms of\n`Hive.Typed.SCode.SStmt`; do not edit. -/\nnamespace Hive.Gen.C06StoreCode\nopen Hive.Typed.SCode\n\n")
 	for _, w := range want {
 		o := got[w]
 		fmt.Fprintf(&b, "/-- TypedStore.%s (typedstore.go:%d); variables: %s -/\ndef code_%s : SStmt :=\n %s\n\n", w, o.line, o.vars, w, o.body)
 	}
-	b.WriteString("def sprog : SProg :=\n  { get := code_Get, has := code_Has, set := code_Set, delete := code_Delete, deletePrefix := code_DeletePrefix, clear := code_Clear, iterate := code_Iterate, iterateKeys := code_IterateKeys }\n\nend Hive.Gen.C06StoreCode\n")
+	b.WriteString("def sprog : SProg :=\n  { get := code_Get, has := code_Has, set := code_Set, delete := code_Delete, deletePrefix := code_DeletePrefix, clear := code_Clear, iterate := code_Iterate, iterateKeys := code_IterateKeys }\n\n")
+	b.WriteString("/-- NewTypedStore: which parameter initialises which field. -/\ndef ctor : List String := " + leanStrList(ctor) + "\n\n")
+	b.WriteString("/-- KVStore() returns this field. -/\ndef accessor : String := " + strconv.Quote(accessor) + "\n\n")
+	b.WriteString("/-- Every function declaration of typedstore.go, in source order. -/\ndef decls : List String := " + leanStrList(decls) + "\n\nend Hive.Gen.C06StoreCode\n")
 	if err := os.WriteFile(os.Args[2], []byte(b.String()), 0o644); err != nil {
 		fmt.Fprintln(os.Stderr, err)
 		os.Exit(1)
